@@ -178,7 +178,7 @@ def static_locks(tier, seed, build, repo, verif):
 CONFIG = {
     "id": "C14",
     "coq_dirs": ["theories/Locks"],
-    "coq_targets": ["theories/Locks/Properties.vo", "theories/Locks/Corr.vo", "theories/Dir/Corr.vo"],
+    "coq_targets": ["theories/Locks/Properties.vo", "theories/Locks/Corr.vo", "theories/Dir/Corr.vo", "theories/Dir/Front.vo"],
     "properties_files": ["theories/Locks/Properties.v"],
     "required_theorems": ["balanced_sound", "balanced_sound_all", "balanced_no_fault", "balanced_panic_covered", "acyclic_sound",
                           "order_no_deadlock", "pile_holds_exactly", "pile_blocks_bare", "no_deadlock", "pile_runner_satisfies_monitor"],
